@@ -158,4 +158,28 @@ def holds (r : Result) : Bool :=
   rollbackIffBodyFailed r && panicReported r && nilIffCommitOk r && endFailuresReported r &&
   bodyErrorReported r && orderlyReturn r && beginFailureReported r
 
+/-! ### round 5c: the clauses that are go-zero's to keep when the BODY may end the raw Tx itself
+(`commit-iff-body-ok` / `rollback-iff-body-failed` / `nil-IFF-commit-ok` / `end-failures-reported` speak about the
+end go-zero chooses; a body that commits or rolls back behind its back takes that choice away) -/
+
+/-- "the returned error is nil ONLY when the commit succeeded" — the property's literal direction -/
+def nilOnlyIfCommitOk (r : Result) : Bool :=
+  !r.ret.isNone || r.log.contains (.commit true)
+
+/-- go-zero never reports success or loses the refusal when ITS end of the transaction did not reach the driver:
+if the driver saw no Commit/Rollback of go-zero's own … this is observable as: the last driver call is an end, and
+a nil result needs a successful Commit in the log -/
+def clausesX : List (String × (Result → Bool)) :=
+  [("begins-once", beginsOnce), ("ends-exactly-once", endsExactlyOnce),
+   ("body-runs-iff-begun", bodyRunsIffBegun), ("panic-reported", panicReported),
+   ("nil-only-if-commit-ok", nilOnlyIfCommitOk), ("body-error-reported", bodyErrorReported),
+   ("orderly-return", orderlyReturn), ("begin-failure-reported", beginFailureReported)]
+
+def violatedX (r : Result) : List String :=
+  (clausesX.filter fun c => !c.2 r).map (·.1)
+
+def holdsX (r : Result) : Bool :=
+  beginsOnce r && endsExactlyOnce r && bodyRunsIffBegun r && panicReported r && nilOnlyIfCommitOk r &&
+  bodyErrorReported r && orderlyReturn r && beginFailureReported r
+
 end GoZero.C14.Spec
